@@ -45,7 +45,12 @@ contract(P + "Properties.property", requires="not attr_absent(self,'element') an
 contract(P + "Properties.__getitem__", requires=SELF_WF + " and is_str(key)",
          returns="isinstance(result, _Property) and not attr_absent(result,'element') and is_obj(result.element) and not attr_absent(result,'name') and "
                  "not attr_absent(result,'required') and not attr_absent(result,'source') and not attr_absent(result,'parent') and "
-                 "(is_none(result.name) or is_str(result.name))",
+                 "(is_none(result.name) or is_str(result.name)) and "
+                 # a key that is the JSON name of a declared property and matches no pattern is governed by that very property
+                 "implies(forall(lambda q: not re_search(key_at(obj_dict(self.pattern), q), key), len(obj_dict(self.pattern))) and "
+                 "forall(lambda i: is_str(val_at(obj_dict(self.props), i).source), len(obj_dict(self.props))), "
+                 "forall(lambda j: implies(val_at(obj_dict(self.props), j).source == key and "
+                 "forall(lambda i: implies(i > j, val_at(obj_dict(self.props), i).source != key), len(obj_dict(self.props))), result is val_at(obj_dict(self.props), j)), len(obj_dict(self.props))))",
          ghost={"function": "prop_for(self, key)", "function_facts": True},
          result_cls="_Property", kinds={"key": "str", "prop": "_Property", "self.pattern": "PatternDict"},
          props=["C01", "C04", "C05", "C08", "C13", "C14"])
